@@ -924,3 +924,112 @@ func checkAddPath(c *Ctx, rule string, adders []*ssa.Function) {
 		}
 	}
 }
+
+// recordWatch: writes to the given headers of the existing table's state (and element stores into them) and,
+// if bankroll is set, writes to the bankroll of an existing player record.
+func recordWatch(name string, headers []string, bankroll bool) *Watch {
+	return &Watch{Name: name, Direct: func(p *Prog, in ssa.Instruction) bool {
+		st, ok := in.(*ssa.Store)
+		if !ok || rawLocal(st.Addr) {
+			return false
+		}
+		a := p.Sym(st.Addr).Strip()
+		if a.Root().Kind != "param" {
+			return false
+		}
+		for _, f := range headers {
+			if a.IsField("TableState", f) || a.Kind == "index" && a.Args[0].Strip().IsField("TableState", f) {
+				return true
+			}
+		}
+		return bankroll && a.IsField("TablePlayerState", "Bankroll")
+	}}
+}
+
+// checkErrorPurity: no engine membership operation reaches an error exit after a write selected by the
+// watch (the all-or-nothing clause of C03.R3, restricted to the state another property depends on).
+func checkErrorPurity(c *Ctx, rule string, w *Watch, what string, min int) {
+	p := c.P
+	et := p.singleImpl("", "TableEngine")
+	if et == nil {
+		c.Bad(rule, "error-purity:anchors", "-", "engine not found")
+		return
+	}
+	var ops []*ssa.Function
+	for _, f := range p.Methods(et) {
+		if errResultIndex(f.Signature) >= 0 && p.MayMutate(f, w) {
+			ops = append(ops, f)
+		}
+	}
+	creator := map[*ssa.Function]bool{}
+	for _, ss := range p.FieldStores("tableEngine", "table") {
+		if rawLocal(ss.ValV) {
+			creator[ss.Fn] = true
+		}
+	}
+	n := 0
+	for _, f := range ops {
+		if !c03IsMembershipOp(p, f, ops) || creator[f] {
+			continue
+		}
+		n++
+		own := 0
+		for _, im := range p.ErrorImpurities(f, w) {
+			if im.Mut == nil {
+				c.Undecided(rule, "error-purity:"+fnName(f), p.Pos(f.Pos()), "path enumeration aborted")
+				continue
+			}
+			if im.Inherited {
+				continue
+			}
+			mut, ex := describeMut(p, im.Mut), describeExit(p, f, im.Exit)
+			// frozen exception: the has-chips refresh of the very record that was just found in the player list
+			// fails only for an id the seat manager does not know; by C03's pairing (R4/R6/R7) every listed
+			// player is seated, so this exit is unreachable while C03 holds
+			if ex == "fail(SeatManager.UpdatePlayerHasChips)" && refreshOfCreditedRecord(p, f, im.Mut) {
+				c.Except(rule, "error-purity:"+fnName(f)+":"+mut+"→"+ex, "UpdatePlayerHasChips(id) is called for the id of the record PlayerStates[FindPlayerIdx(id)] that was just credited; it fails only for an id unknown to the seat manager, which C03's pairing excludes for a listed player")
+				continue
+			}
+			own++
+			c.Bad(rule, "error-purity:"+fnName(f)+":"+mut+"→"+ex, p.InstrPos(im.Mut),
+				fmt.Sprintf("%s changed (%s at %s) and the operation can still fail at %s (%s): the caller is told the request was refused although part of it took effect", what, instrText(p, im.Mut), p.InstrPos(im.Mut), p.InstrPos(im.Exit), ex),
+				"path "+p.TrailString(f, im.Trail))
+		}
+		if own == 0 {
+			c.Ok(rule, "error-purity:"+fnName(f), p.Pos(f.Pos()), "no such write before any error exit")
+		}
+	}
+	c.Min(rule, "membership operations writing "+what, n, min)
+}
+
+// refreshOfCreditedRecord: mut is a bankroll store to X = PlayerStates[FindPlayerIdx(…)] (found: index != unset)
+// and every UpdatePlayerHasChips call of f names X.PlayerID.
+func refreshOfCreditedRecord(p *Prog, f *ssa.Function, mut ssa.Instruction) bool {
+	ss := p.storeSite(mut)
+	if ss == nil || ss.Owner != "TablePlayerState" || ss.Field != "Bankroll" {
+		return false
+	}
+	rec := ss.Addr.Strip().Args[0].Strip()
+	if rec.Kind != "index" || !rec.Args[0].Strip().IsField("TableState", "PlayerStates") || !rec.Args[1].Strip().IsCall("Table.FindPlayerIdx") {
+		return false
+	}
+	found := cmpHolds(p.Guards(mut), func(l, r *Sym, op token.Token) bool {
+		return op == token.NEQ && l.Strip().IsCall("Table.FindPlayerIdx") && (r.Strip().Name == "-1" || strings.Contains(r.Strip().String(), "UnsetValue"))
+	})
+	if !found {
+		return false
+	}
+	n := 0
+	for _, ci := range Calls(f) {
+		cs := p.CallSym(ci)
+		if cs.Name != "SeatManager.UpdatePlayerHasChips" {
+			continue
+		}
+		n++
+		id := cs.Args[1].Strip()
+		if !(id.IsField("TablePlayerState", "PlayerID") && id.Args[0].Strip().String() == rec.String()) {
+			return false
+		}
+	}
+	return n > 0
+}
